@@ -515,6 +515,41 @@ impl<'a, S: Setup> G<'a, S> {
             }
         }
     }
+    /// A private input tied to a product that is an op-level duplicate (through a connect-aliased
+    /// operand) of an earlier product whose only use is a forward add — de-duplication moves the
+    /// private input's slot onto the product that mul-add fusion then wants to absorb.
+    fn private_on_duplicate_product(&mut self) {
+        if !self.opts.privates {
+            return self.binop();
+        }
+        let (a, p0, q0) = (self.var(), self.var(), self.var());
+        // x: computed, so that it may be connected to a fresh input in clean programs too
+        let x = {
+            let v = self.vals[p0] + self.vals[q0];
+            self.push(Stmt::Add(p0, q0), vec![v])
+        };
+        let m1 = {
+            let v = self.vals[a] * self.vals[x];
+            self.push(Stmt::Mul(a, x), vec![v])
+        };
+        let c = self.var();
+        let sv = self.vals[m1] + self.vals[c];
+        let _s = self.push(Stmt::Add(m1, c), vec![sv]);
+        let vx = self.vals[x];
+        let x2 = self.new_input(vx);
+        self.push(Stmt::Connect(x, x2), vec![]);
+        let m2 = {
+            let v = self.vals[a] * self.vals[x2];
+            if chance(self.rng, 1, 2) { self.push(Stmt::Mul(a, x2), vec![v]) } else { self.push(Stmt::Mul(x2, a), vec![v]) }
+        };
+        let vm = self.vals[m2];
+        let p = self.new_private(vm);
+        if chance(self.rng, 1, 2) {
+            self.push(Stmt::Connect(m2, p), vec![]);
+        } else {
+            self.push(Stmt::Connect(p, m2), vec![]);
+        }
+    }
     fn duplicate(&mut self) {
         // re-emit an earlier binary statement commutated, or with an operand replaced by a
         // var connected to it (de-duplication through connect).
@@ -718,6 +753,8 @@ pub fn gen_prog<S: Setup>(rng: &mut SmallRng, opts: &GenOpts) -> Generated<S> {
             g.ext();
         } else if r < c + 63 {
             g.misc();
+        } else if r >= 98 {
+            g.private_on_duplicate_product();
         } else if r >= 96 {
             g.dup_pair_share();
         } else {
